@@ -72,6 +72,9 @@ type Case struct {
 	Want     string     `json:"want_module,omitempty"`
 	ViaImp   bool       `json:"via_import,omitempty"`
 	WantDate string     `json:"import_date,omitempty"`
+	// Retry: the fetch is first tried before the directories are put on the search path (it must fail: nothing
+	// is there), then the directories are added and it is tried again on the same module set
+	Retry bool `json:"retry_after_adding_the_path,omitempty"`
 	// Recurse[d]: directory d is put on the search path as "d/...": d and everything below it is searched
 	Recurse []bool `json:"recursive_dirs,omitempty"`
 	// revsub: revisions of one module that each include the submodule "sub"
@@ -440,6 +443,30 @@ func checkFiles(c Case, o *ev.Outcome) {
 	}
 	o.NonTrivial = len(c.Files) >= 2
 	ms := yang.NewModules()
+	if c.Retry {
+		o.Class("fetch-retried-after-the-path-was-added")
+		early := false
+		ev.Guard(o, "fetch before the path is known", func() {
+			if c.ViaImp {
+				d := ""
+				if c.WantDate != "" {
+					d = " revision-date " + c.WantDate + ";"
+				}
+				if err := ms.Parse(fmt.Sprintf("module imp { namespace \"urn:imp\"; prefix q; import %s { prefix i;%s } }", c.Want, d), "imp.yang"); err == nil {
+					early = len(ms.Process()) == 0
+				}
+			} else {
+				early = ms.Read(c.Want) == nil
+			}
+		})
+		if len(o.Violations) > 0 {
+			return
+		}
+		if early {
+			o.Violate("never-a-foreign-file", "C13/files/found-without-a-search-path", "%s was found although no directory had been put on the search path yet (files: %v)", c.Want, c.Files)
+			return
+		}
+	}
 	for d, p := range dirs {
 		if d < len(c.Recurse) && c.Recurse[d] {
 			o.Class("recursive-search-path-entry")
@@ -460,9 +487,11 @@ func checkFiles(c Case, o *ev.Outcome) {
 			if c.WantDate != "" {
 				d = " revision-date " + c.WantDate + ";"
 			}
-			if err := ms.Parse(fmt.Sprintf("module imp { namespace \"urn:imp\"; prefix q; import %s { prefix i;%s } }", c.Want, d), "imp.yang"); err != nil {
-				loadErr = err
-				return
+			if !c.Retry {
+				if err := ms.Parse(fmt.Sprintf("module imp { namespace \"urn:imp\"; prefix q; import %s { prefix i;%s } }", c.Want, d), "imp.yang"); err != nil {
+					loadErr = err
+					return
+				}
 			}
 			if errs := ms.Process(); len(errs) > 0 {
 				loadErr = fmt.Errorf("%v", errs)
@@ -1093,6 +1122,7 @@ func genFiles(t *rapid.T) Case {
 			c.Files = append(c.Files, f)
 		}
 	}
+	c.Retry = rapid.IntRange(0, 3).Draw(t, "retry-after-adding-the-path") == 0
 	if c.ViaImp && rapid.IntRange(0, 2).Draw(t, "dated-import") == 0 {
 		for _, f := range c.Files {
 			if !f.Dir2 && c.searched(f) && strings.HasPrefix(f.Name, w+"@") && strings.HasSuffix(f.Name, ".yang") && dateRE(strings.TrimSuffix(strings.TrimPrefix(f.Name, w+"@"), ".yang")) {
@@ -1436,7 +1466,7 @@ func TestCheck(t *testing.T) {
 		ID:    "C13",
 		Level: "exploration",
 		Rule: "five generators. (e) mixed: revisions 2018-2021 of lib each loaded, waiting as lib@DATE.yang in a search-path directory, or absent, optionally a text without revision; 1-3 importers (alpha, middle, omega) with or without revision-date using lib's grouping and typedef; three load orders, one Process. Oracle: the bare name denotes the latest revision held afterwards, undated imports denote it, dated imports denote their revision when it is held, and what an importer's uses and type bring comes from the module its import denotes. (d) revisions with submodules: 1-3 revisions of one module, each including the submodule sub with or without revision-date, 1-2 texts of sub (with a nested include of a second submodule in a third of the cases), six load orders. Oracle: the tree of every revision holds its own leaf, the leaf of exactly the submodule text its include denotes, and the nested submodule's leaf once. (a) revisions: 1-5 module headers with a name from {foo, bar} and 0-3 revision dates (texts with equal name and latest revision are identical), plus 0-3 importers with and without revision-date; every load permutation for up to 4 texts (24), 12 sampled for 5. Oracle: exactly one text per (name, latest revision) is accepted in every order, the bare key and undated imports denote the latest loaded revision, dated keys and dated imports the exact one. " +
-			"(b) files: 1-3 search-path directories (temporary, outside /repo and /verif) with up to 7 files from {name.yang, three name@DATE.yang (the wanted name is one of name, na.me, n.a-m_e, name.v1, na-me; for names with punctuation also files of modules that differ in that character only, with the latest dates), near misses: nameX@.., Xname@.., name@2020-1-01.yang, ...yang.bak, ...YANG, name-ext@.., name@DATEx.yang, name.yang.orig, nam.yang, name2.yang, name@.yang, name@20220101.yang; sometimes a directory of that name}; in a third of the cases directories are put on the search path as dir/... (dir and everything below it is searched; all true candidates below such an entry lie in one place, the directory itself or a sub-directory up to two levels down) and files also lie in sub-directories of plain entries, where they are no candidates; every file declares the wanted module with a namespace naming its own path; fetched by Read, by an undated import and by a dated import. Oracle: the module comes from the first directory holding a candidate, name.yang else the latest date (dated import: the exact file); with no candidate the fetch fails. " +
+			"(b) files: 1-3 search-path directories (temporary, outside /repo and /verif) with up to 7 files from {name.yang, three name@DATE.yang (the wanted name is one of name, na.me, n.a-m_e, name.v1, na-me; for names with punctuation also files of modules that differ in that character only, with the latest dates), near misses: nameX@.., Xname@.., name@2020-1-01.yang, ...yang.bak, ...YANG, name-ext@.., name@DATEx.yang, name.yang.orig, nam.yang, name2.yang, name@.yang, name@20220101.yang; sometimes a directory of that name}; in a third of the cases directories are put on the search path as dir/... (dir and everything below it is searched; all true candidates below such an entry lie in one place, the directory itself or a sub-directory up to two levels down) and files also lie in sub-directories of plain entries, where they are no candidates; every file declares the wanted module with a namespace naming its own path; fetched by Read, by an undated import and by a dated import, in a quarter of the cases after the same fetch was tried (and had to fail) before the directories were put on the search path. Oracle: the module comes from the first directory holding a candidate, name.yang else the latest date (dated import: the exact file); with no candidate the fetch fails. " +
 			"(c) split: a generated single module and a random partition of its body into 1-3 submodules (all definitions move, nodes stay or move; submodules include each other where they refer to each other, mutual includes allowed with the ignore-circular option). Oracle: tree, types, attributes and identity lists of the module equal those of the unsplit module. " +
 			"Non-trivial = (a) two texts sharing a name or a duplicate, (b) >= 2 files, (c) >= 1 submodule, (d) >= 2 module revisions, (e) >= 2 revisions and >= 2 importers; distinct by case",
 		Assumptions: []string{
